@@ -349,7 +349,11 @@ func c11Explore(c *core.Ctx, cfgs []c11Cfg, race bool, onFail func(cs c11Case, f
 		raceBefore := core.RaceErrors()
 		outcomes := map[string]int64{}
 		poolctl.GetsFromPool, poolctl.GetsNew = 0, 0
+		var sample []string
 		e.OnExec = func(x *schedx.Execution) {
+			if e.Executions == 3 && !x.Truncated {
+				sample = x.Describe()
+			}
 			var fs []F
 			for _, m := range x.Failures {
 				fs = append(fs, core.Failf(c11Key(m), "%+v schedule %v: %s", cfg, x.Choices, m))
@@ -382,7 +386,7 @@ func c11Explore(c *core.Ctx, cfgs []c11Cfg, race bool, onFail func(cs c11Case, f
 		}
 		report = append(report, map[string]any{"config": fmt.Sprintf("%+v", cfg), "race_monitor": race, "executions": e.Executions, "scheduling_and_env_choices": e.Transitions,
 			"distinct_states": len(e.States), "pruned_at_visited_state": e.Pruned, "max_points": e.MaxPoints, "outcomes": outcomes,
-			"gets_served_from_pool": poolctl.GetsFromPool, "gets_served_by_new": poolctl.GetsNew, "completed": !e.Capped, "wall_s": time.Since(start).Seconds()})
+			"gets_served_from_pool": poolctl.GetsFromPool, "gets_served_by_new": poolctl.GetsNew, "completed": !e.Capped, "wall_s": time.Since(start).Seconds(), "sample_schedule": sample})
 	}
 	return
 }
@@ -456,7 +460,12 @@ func init() {
 			c.Set("evaluations", execs)
 			c.Set("distinct_nontrivial", states)
 			c.Set("configs", report)
-			c.Sample(map[string]any{"cfg": c11Cfg{T: "int8", C: 1, K: 2, G: 2, M: 1, Bound: -1}, "schedule": "t0: get, pool.Get -> New, stamp, stamp | t1: get ... (choice lists are replayable: see replay files)"})
+			for _, r := range report {
+				if s, ok := r["sample_schedule"].([]any); ok && len(s) > 0 && c.WantSample() {
+					c.Sample(map[string]any{"config": r["config"], "one_explored_schedule": s})
+				}
+			}
+			c.Sample(map[string]any{"cfg": c11Cfg{T: "int8", C: 1, K: 2, G: 2, M: 1, Bound: -1}, "note": "choice lists are replayable: see replay files"})
 			c.Set("rule", "G goroutines x M cycles of Get / check fresh / stamp first half / stamp second half / verify stamps / Put on one PoolAllocator (shared by pointer, and as per-goroutine copies of the value); scheduling points between all steps and before/after the pool operations inside Get and Put; every Get also branches over the pool's answers (any pooled item, or New = item dropped by GC); (2,1),(2,2),(3,1) with all interleavings (state-key pruning), larger ones within a preemption bound; the race-monitor pass repeats a bounded exploration in the -race build driven by the detector-invisible baton; states = distinct global states (non-race pass)")
 			c.Assume("threads interleave at scheduling points only; conflicting accesses between points are the race monitor's job (Go race detector, happens-before on each explored schedule)", "the sync.Pool shim gives exactly the documented guarantee Put(x) happens-before the Get returning x", "GOMAXPROCS is 1 by construction: for race-free programs parallel executions are equivalent to interleavings (DRF-SC)")
 		},
